@@ -56,9 +56,18 @@ class Run:
         self.trace.append(list(e))
 
     # ---- object construction ------------------------------------------------
+    def on_recv(self, msg, time, addr, port):
+        from sc3.base.main import main
+        self.ev('recv', [x if isinstance(x, (int, float, str)) else repr(x)
+                         for x in msg], time, self.now(),
+                main.current_tt._seconds, [addr.hostname, addr.port], port)
+
     def setup(self):
         from sc3.base.stream import Routine, Condition
         from sc3.base import clock as clk
+        if self.mode == 'rt' and self.prog.get('recv'):
+            from sc3.base.main import main
+            main.add_osc_recv_func(self.on_recv)
         for cid, spec in self.prog.get('clocks', {}).items():
             if spec[0] == 'system':
                 self.clocks[cid] = clk.SystemClock
@@ -161,10 +170,13 @@ class Run:
                 self.ev('log', who, self.now(), main.current_tt._seconds,
                         None if c is None else c.beats)
             elif op == 'send':
+                self.ev('send', who, 'bundle', st[2], self.now())
                 self._addr().send_bundle(st[1], ['/t', st[2]])
             elif op == 'sendm':
+                self.ev('send', who, 'msg', st[1], self.now())
                 self._addr().send_msg('/t', st[1])
             elif op == 'sendb':
+                self.ev('send', who, 'nested', st[3], self.now())
                 self._addr().send_bundle(
                     st[1], ['/t', st[3]], [st[2], ['/u', st[3]]])
             elif op == 'play':
@@ -316,6 +328,9 @@ def run_rt(prog, prefix, lateness_menu=None, step_budget=4000):
         alive, pending = {}, {}
     finally:
         seams.on_add = None
+        if prog.get('recv'):
+            from sc3.base.main import main
+            main.remove_osc_recv_func(run.on_recv)
     problems = ex.finish() if status == 'ok' else _force_finish(ex)
     result = {
         'status': status, 'detail': detail, 'trace': run.trace,
